@@ -2,7 +2,7 @@
     MAC is an arbitrary function: the routers recompute the same function, no cryptographic
     hypothesis is needed for these positive results. *)
 From Sci Require Import Gen.NetworkTables Network.Model Network.Spec Network.Proofs Network.Proofs_C01
-     Network.Proofs_Deliver Network.Proofs_Combined.
+     Network.Proofs_Deliver Network.Proofs_Combined Network.Proofs_Peer.
 Local Open Scope N_scope.
 
 (** The code that extends a beacon ([SignedPathSegment::add_entry] = [AsEntry::update_macs]
@@ -42,10 +42,11 @@ Print Assumptions chain_invariant.
     the hop fields are within their lifetime, the crossover link types are among the valid
     three), every clock and every MAC function.  The packet that arrives is described exactly
     ([fin]: same hop fields, every segment's SegID = the value its last hop was verified with).
-    PARTIAL with respect to the property sentence: uses through a PEER entry (peering hops)
-    are not covered by this theorem; for them the chain invariant above is proved, and the
-    reference router is evaluated on every offered peering path by the correspondence run
-    (witness [Findings.sdk_rejects_peering_refuted]). *)
+    PARTIAL with respect to the property sentence only in its shape: uses through a PEER
+    entry (peering hops) are the subject of the separate theorem [peering_path_delivers]
+    below, and [route_topo] is a hypothesis (that segments are beaconed along existing up
+    links of the topology is what the control plane does; checked on every generated
+    topology by the correspondence run). *)
 Theorem combined_path_delivers_partial :
   forall (key : Type) (mac : key -> N -> N -> N -> N -> N -> N) (t : topology key) (now dst : N)
          (b : buse) (bs : list buse) (pk : packet),
@@ -92,3 +93,47 @@ Theorem assembled_paths_are_authentic :
     end.
 Proof. intros. apply route_auth_of; assumption. Qed.
 Print Assumptions assembled_paths_are_authentic.
+
+(** Peering paths.  Two segments carrying the PEERING flag: the first travelled against
+    construction direction and ending in a peering hop field, the second in construction
+    direction and starting with one (the shape [PathSolution::path] gives every peering path;
+    either segment may consist of its peering hop field alone).  If every hop field is
+    authentic over the SegID the data-plane rules carry to it ([carried_rev .. true true]:
+    restored at every ingress except the first hop and the peering hop; [carried_cons .. true]:
+    chained at every egress except after the peering hop) and the topology carries the path
+    ([p1_topo], [p4_topo]: usable hop fields, ASes holding the keys, up links between
+    consecutive interfaces, the peering link between the two peering hop fields), the
+    reference router delivers the packet at its destination.  Any lengths, any MAC function. *)
+Theorem peering_path_delivers :
+  forall (key : Type) (mac : key -> N -> N -> N -> N -> N -> N) (t : topology key) (now : N)
+         (L0 : list hopd) (dq : hopd) (r1 : list hopd) (s0 ts0 s1 ts1 dst : N),
+    Forall (fun d => auth mac d ts0) L0 ->
+    betas_of L0 = carried_rev s0 (hops_of L0) true true ->
+    p1_topo t now ts0 L0 dq ->
+    Forall (fun d => auth mac d ts1) (dq :: r1) ->
+    betas_of (dq :: r1) = carried_cons s1 (hops_of (dq :: r1)) true ->
+    hopok t now dq ts1 ->
+    match r1 with
+    | [] => d_ia dq = dst
+    | e :: r' => plink t (d_ia dq) (h_eg (d_hop dq)) (d_ia e) (h_in (d_hop e)) /\ p4_topo t now ts1 dst e r'
+    end ->
+    delivers mac t now (length L0 + 1 + length r1) (d_ia (hd dq L0)) 0
+             (ppkt dst 0 0 (length L0) (S (length r1)) s0 ts0 s1 ts1 (hops_of L0 ++ hops_of (dq :: r1)))
+             dst (fun _ => True).
+Proof. intros. apply peering_delivers; assumption. Qed.
+Print Assumptions peering_path_delivers.
+
+(** ... and the uses of beaconed segments through a peer entry are exactly such
+    descriptions: by the chain invariant every hop field of the use (regular ones and the
+    peer entry's) is authentic over the carried value, with the SegID initialised as
+    [initialize_segment_id] does (beta_(k+1) for a peer entry of entry k). *)
+Theorem peer_uses_are_authentic :
+  forall (key : Type) (mac : key -> N -> N -> N -> N -> N -> N) (b : buse) (pi : nat) (hs : list hopf),
+    (bu_k b < length (bu_us b))%nat -> use_hops (peer_use mac b pi) = Some hs ->
+    Forall (fun d => auth mac d (bu_ts b)) (peer_desc mac b pi hs)
+    /\ hops_of (peer_desc mac b pi hs) = hs
+    /\ betas_of (peer_desc mac b pi hs)
+       = if bu_cons b then carried_cons (init_segid (peer_use mac b pi)) hs true
+         else carried_rev (init_segid (peer_use mac b pi)) hs true true.
+Proof. intros. apply peer_desc_auth; assumption. Qed.
+Print Assumptions peer_uses_are_authentic.
